@@ -149,7 +149,8 @@ def main():
                  'translators cfmt2lean / pyfmt2lean (type tables), tagsites2lean (tag call inventory), intexpr2lean / grammar2lean (plural evaluators), fmtcheck2lean (probes of check_args and get_last_integer_conversion, re-computed by the model in the kernel)',
                  'the comparators check_args x4 and get_last_integer_conversion are tied by translation + proof: tools/translate/fmtargs2lean.py (over tools/translate/pytr; rules and '
                  'representation conventions in its docstring and DESIGN-notes/fmtcheck.md) and the kit lean/I18n/PyKit.lean are trusted; the regenerated definitions are PROVED equal to the model '
-                 '(Props/C14Tie.lean) and are exercised against CPython by the *-generated streams; check_message, check_string, check_msgids and the dispatch are hand-written: tied by the fmtcheck-* streams',
+                 '(Props/C14Tie.lean) and are exercised against CPython by the *-generated streams; check_message is tied the same way (tools/translate/fmtmsg2lean.py, Props/C14MsgTie.lean, *-generated-msg streams); '
+                 'check_string, check_msgids and the dispatch are hand-written: tied by the fmtcheck-* streams',
                  'the parsers: C and Python-% through the models of C11 / C12, python-brace and perl-brace through the models of C13 (their own streams); '
                  'the brace kinds are streamed both with the signature extracted from the real parser object and as raw strings',
                  'message_repr (prefix) is an input computed by calling the real function; single-string diagnostics are compared by name and prefix only',
@@ -157,6 +158,8 @@ def main():
         explanation=EXPLANATION)
 
 EXPLANATION = (
+    'TIE (2): Generated/FmtMsg.lean is regenerated from the current lib/check/msgformat/__init__.py (check_message) on every run; Props/C14MsgTie.lean proves generated_check_message_eq_model '
+    '(every back end, context, message, flags) and generated_msg_check_formats_eq_model, and restates plain_message / invalid_msgstr_error / message_tags / nocrash about the regenerated definition.  '
     'TIE: Generated/FmtArgs.lean is regenerated from the current lib/check/msgformat/{c,python,pybrace,perlbrace}.py (check_args) and lib/strformat/c.py (get_last_integer_conversion) on '
     'every run; Props/C14Tie.lean proves each regenerated function equal to the model for all inputs (generated_*_check_args_eq_model, generated_get_last_integer_conversion_eq_model, '
     'generated_check_formats_eq_model) and restates the args_tags_iff theorems about the regenerated definitions; a source change breaks a proof or the translation (coverage.tie) and starts the falsifier.  '
